@@ -348,6 +348,8 @@ namespace rt {
 
 int self() { return tl_me ? tl_me->id : -1; }
 
+int alive() { int n = 0; if (g_ex) for (Thr* t : g_ex->thr) if (!t->finished) ++n; return n; }
+
 int spawn(std::function<void()> fn) {
   if (!managed()) { fprintf(stderr, "rt::spawn outside an execution\n"); _exit(96); }
   ExecState& ex = *g_ex;
